@@ -521,6 +521,9 @@ func equalsV(t types.Type, x, y value) value {
 		return x == y.(bool)
 	case structure:
 		ys := y.(structure)
+		if isReflectValueType(t) {
+			return reflectValueEq(x, ys)
+		}
 		tStruct := t.Underlying().(*types.Struct)
 		var r value = true
 		for i, n := 0, tStruct.NumFields(); i < n; i++ {
